@@ -205,16 +205,24 @@ def gap_slots(p: P, path=()) -> Iterator[tuple[tuple, int]]:
             yield from gap_slots(p.kids[e[1]], path + (e[1],))
 
 
-def render(p: P, serial=None) -> str:
-    """Render a program; default gaps are single spaces."""
+def render(p: P, serial=None, node=None) -> str:
+    """Render a program; default gaps are single spaces.  The binding/formal name `a` of every
+    non-root node is made unique (`a2`, `a3`, ... by DFS ordinal) so that nested or repeated
+    constructs are distinguishable in the token sequence (a re-ordering of levels is visible)."""
     if serial is None:
         serial = [0]
+    if node is None:
+        node = [0]
+    node[0] += 1
+    me = node[0]
     elems, glued = _elements(p.c)
     gaps = dict(p.gaps)
     out = []
     for j, e in enumerate(elems):
         if isinstance(e, tuple):
-            out.append(render(p.kids[e[1]], serial))
+            out.append(render(p.kids[e[1]], serial, node))
+        elif e == "a" and me > 1:
+            out.append(f"a{me}")
         else:
             out.append(e)
         if j < len(elems) - 1:
